@@ -80,13 +80,19 @@ def _from_soap(in_envelope_xml, xmlids=None, **kwargs):
     if len(header_envelope) == 0 and len(body_envelope) == 0:
         raise Fault('Client.SoapError', 'Soap envelope is empty!')
 
+    # comments, processing instructions and unresolved entity references are
+    # not message parts.
     header = None
     if len(header_envelope) > 0:
-        header = header_envelope[0].getchildren()
+        header = [c for c in header_envelope[0]
+                                     if isinstance(c.tag, six.string_types)]
 
     body = None
-    if len(body_envelope) > 0 and len(body_envelope[0]) > 0:
-        body = body_envelope[0][0]
+    if len(body_envelope) > 0:
+        for c in body_envelope[0]:
+            if isinstance(c.tag, six.string_types):
+                body = c
+                break
 
     return header, body
 
